@@ -2250,7 +2250,8 @@ fn run_d(case: &Case, ctx: &Arc<RunCtx>) -> RunOut {
 /// the multiset: updates over `members` members, tiny incarnation / timestamp ranges, ties injected
 fn gen_updates(rng: &mut Rng, members: u8, n_upd: usize) -> (Vec<Upd>, u64) {
     let inc_max = *rng.pick(&[0u64, 1, 1, 2, 2]);
-    let ts_max = *rng.pick(&[0u64, 1, 2, 3, 3]);
+    // mostly tiny (ties), now and then with gaps (a clock that lags behind a stored timestamp)
+    let ts_max = *rng.pick(&[0u64, 1, 2, 3, 3, 6, 9, 30]);
     let tie_w = rng.range(1, 4);
     // the observer's wall clock: constant, or an independent value from a tiny range (ties included)
     let wall_max = *rng.pick(&[0u64, 1, 2, 3]);
@@ -2464,7 +2465,8 @@ fn gen_c(rng: &mut Rng) -> Case {
         updates,
         steps,
         fanout: rng.range(1, 3) as u8,
-        max_states: 20,
+        // what a node sends is bounded by this; what it receives (from nodes configured otherwise) is not
+        max_states: *rng.pick(&[1u8, 2, 3, 20, 20, 20]),
         susp_ms: *rng.pick(&[300u32, 500, 1000]),
         threads,
         schedule,
@@ -2623,7 +2625,8 @@ fn gen_d(rng: &mut Rng) -> Case {
         updates,
         steps,
         fanout: rng.range(1, 3) as u8,
-        max_states: 20,
+        // what a node sends is bounded by this; what it receives (from nodes configured otherwise) is not
+        max_states: *rng.pick(&[1u8, 2, 3, 20, 20, 20]),
         susp_ms: *rng.pick(&[300u32, 500, 1000]),
         threads: Vec::new(),
         schedule: Vec::new(),
